@@ -82,6 +82,9 @@ func (m *OddPrimeFactors) UnmarshalCBOR(data []byte) error {
 	if dto.P == nil || dto.Q == nil {
 		return ErrFailed.WithMessage("missing prime in OddPrimeFactors encoding")
 	}
+	if (dto.P.IsZero() | dto.Q.IsZero()) == ct.True {
+		return ErrFailed.WithMessage("zero prime in OddPrimeFactors encoding")
+	}
 	out, ok := NewOddPrimeFactors(dto.P, dto.Q)
 	if ok == ct.False {
 		return ErrFailed.WithMessage("failed to create OddPrimeFactors")
@@ -109,6 +112,9 @@ func (m *OddPrimeSquareFactors) UnmarshalCBOR(data []byte) error {
 	}
 	if dto.P == nil || dto.Q == nil {
 		return ErrFailed.WithMessage("missing prime in OddPrimeSquareFactors encoding")
+	}
+	if (dto.P.IsZero() | dto.Q.IsZero()) == ct.True {
+		return ErrFailed.WithMessage("zero prime in OddPrimeSquareFactors encoding")
 	}
 	out, ok := NewOddPrimeSquareFactors(dto.P, dto.Q)
 	if ok == ct.False {
